@@ -17,7 +17,7 @@ RULE = ("random instances of the seven classes (set systems up to 4 sets x 3 ele
         "weights A > threshold, log_trick both ways where offered; the matrix is compared exactly with the model; decoders, "
         "validators, ground states and the class-specific solve_bruteforce are checked against direct combinatorial solvers "
         "by enumerating all assignments (<= 15 variables); non-trivial = at least 4 formulation variables; distinct by JSON")
-THEOREMS = "C10_bilp_value C10_bilp_ground C10_bilp_valid C10_vc_value C10_vc_ground C10_np_value C10_np_ground C10_np_ground_even C10_np_valid C10_asc_value C10_asc_ground C10_asc_value_pbc C10_asc_ground_pbc C10_setcover_value C10_setcover_ground C10_setcover_valid C10_gp_value C10_gp_ground C10_js_value C10_js_ground C10_js_valid"
+THEOREMS = "C10_bilp_value C10_bilp_ground C10_bilp_valid C10_vc_value C10_vc_ground C10_np_value C10_np_ground C10_np_ground_even C10_np_valid C10_asc_value C10_asc_ground C10_asc_value_pbc C10_asc_ground_pbc C10_asc_value_pbc2 C10_asc_ground_pbc2 C10_setcover_value C10_setcover_ground C10_setcover_valid C10_gp_value C10_gp_ground C10_js_value C10_js_ground C10_js_valid"
 MODELLED = "numpy arrays (BILP) enter as exact integer lists; vertex numbering of GraphPartitioning (a Python set) is read from the instance"
 
 CLASSES = ["VertexCover", "NumberPartitioning", "GraphPartitioning", "SetCover", "BILP", "JobSequencing", "AlternatingSectorsChain"]
